@@ -445,7 +445,9 @@ Definition count_ok (l : list asn) : bool := Nat.eqb (length (plain_of l)) 1 || 
 Inductive chk :=
   | KPlain (s : sres) (im : bool)     (* _assertion(a, False) of a plain assertion: signature, requirement, issuer comparison *)
   | KDecrypted (s : sres)             (* decrypt_assertions: the signature of a decrypted assertion, if it carries one *)
-  | KRest (s : sres) (im : bool).     (* _assertion(a, True) of a decrypted assertion: requirement, issuer comparison *)
+  | KRest (s : sres) (im : bool)      (* _assertion(a, True) of a decrypted assertion: requirement, issuer comparison *)
+  | KNumber (several_unsigned : bool). (* /repo fix 6a3bb24f, after all walks: more than one processed assertion and the Response
+                                          element carries no ds:Signature -> InvalidAssertion *)
 
 Definition run_chk (require_signature : bool) (k : chk) : outcome :=
   match k with
@@ -455,6 +457,7 @@ Definition run_chk (require_signature : bool) (k : chk) : outcome :=
                   | SAbsent => if require_signature then SignatureErr else if im then Done else OtherErr
                   | _ => if im then Done else OtherErr
                   end
+  | KNumber bad => if bad then OtherErr else Done
   end.
 
 (* the first exception ends the walk *)
@@ -465,10 +468,19 @@ Definition x_find (only_md : bool) (mm : mmsg) (x : asn) : sres :=
   look only_md (a_issuer (as_msg mm x)) (has_issuer (x_who x)) (x_sig x).
 Definition x_im (mm : mmsg) (x : asn) : bool := issuers_match (as_msg mm x).
 
-Definition schedule (only_md : bool) (mm : mmsg) : list chk :=
+(* the walk before /repo fix 6a3bb24f *)
+Definition schedule_v0 (only_md : bool) (mm : mmsg) : list chk :=
   map (fun x => KPlain (x_find only_md mm x) (x_im mm x)) (plain_of (mm_asl mm))
   ++ map (fun x => KDecrypted (x_find only_md mm x)) (enc_of (mm_asl mm))
   ++ map (fun x => KRest (x_find only_md mm x) (x_im mm x)) (enc_of (mm_asl mm)).
+
+(* fix 6a3bb24f: `len(self.assertions) > 1 and not self.response.signature` once every assertion has been walked (all
+   plain and all decrypted assertions are in self.assertions then; a retry of verify() only adds to it) - whether the
+   Response element CARRIES a signature: a present one has been verified by loads() before verify() is reached *)
+Definition several_unsigned (mm : mmsg) : bool :=
+  Nat.ltb 1 (length (mm_asl mm)) && match mm_rs mm with None => true | Some _ => false end.
+Definition schedule (only_md : bool) (mm : mmsg) : list chk :=
+  schedule_v0 only_md mm ++ [KNumber (several_unsigned mm)].
 
 Definition verify_all (require_signature : bool) (ok_count : bool) (sch : list chk) : outcome :=
   if negb ok_count then OtherErr else first_err (map (run_chk require_signature) sch).
@@ -501,15 +513,18 @@ Definition core_gen (wr wa wor : bool) (r : sres) (verify : bool -> outcome) (b 
 Definition x_schema_ok (x : asn) : bool := x_enc x || has_issuer (x_who x).
 Definition mm_schema_ok (mm : mmsg) : bool := forallb x_schema_ok (mm_asl mm).
 
-Definition parse_mmsg (c : config) (mm : mmsg) : bool :=
+Definition parse_mmsg_with (sch : bool -> mmsg -> list chk) (c : config) (mm : mmsg) : bool :=
   let wr := resolve (c_wr c) want_response_signed_default in
   let wa := resolve (c_wa c) want_assertions_signed_default in
   let wor := resolve (c_wor c) want_assertions_or_response_signed_default in
   let only_md := resolve (c_only c) only_use_keys_in_metadata_default in
   core_gen wr wa wor
            (look only_md (mm_rwho mm) (mm_schema_ok mm) (mm_rs mm))
-           (fun q => verify_all q (count_ok (mm_asl mm)) (schedule only_md mm))
+           (fun q => verify_all q (count_ok (mm_asl mm)) (sch only_md mm))
            (mm_bind mm).
+Definition parse_mmsg : config -> mmsg -> bool := parse_mmsg_with schedule.
+(* before fix 6a3bb24f, kept for the record: several individually signed assertions in an unsigned Response went through *)
+Definition parse_mmsg_v0 : config -> mmsg -> bool := parse_mmsg_with schedule_v0.
 
 Definition sp_run_mm (c : config) (ms : list mmsg) : list bool := map (parse_mmsg c) ms.
 Definition client_run_mm (k : client) (ms : list mmsg) : list bool :=
